@@ -1,6 +1,7 @@
 (* Extraction of the glob model. ExtrOcamlBasic only: bool, option, list, prod, unit, sumbool map
    to OCaml natives; N / positive / nat / Z stay Coq datatypes. *)
 From Coq Require Import Extraction ExtrOcamlBasic.
-From T38 Require Import Base.Bytes Base.Utf8 Model.Glob.
+From T38 Require Import Base.Bytes Base.Utf8 Model.Glob Model.Where.
 Extraction Language OCaml.
-Extraction "model.ml" Z.add Z.of_N Nat.add glob_match parse in_limits unlimited multi_glob_parse decode_rune.
+Extraction "model.ml" Z.add Z.of_N Nat.add glob_match parse in_limits unlimited multi_glob_parse decode_rune
+  value_less value_equals str_less_ci where_make match_field wherein_match get_field field_match scan_ids scan_count ZeroValue.
